@@ -76,8 +76,8 @@ def check(pid, tier, seed):
         futs = {}
         for u in units:
             extra = []
-            if tier == "thorough" and seed:
-                extra = ["--smt-option", "smt.random_seed=%d" % seed]
+            # VERIF_SEED is deliberately NOT passed to Z3: a proof either goes through or not, and a random solver seed only
+            # makes the resource consumption of the big functions (Tcb::process_segment) vary around their rlimit
             futs[pool.submit(verus.run_unit, u, None, rlimit, extra)] = u
         kf = None
         if P.get("kani"):
